@@ -392,6 +392,13 @@ func c05Run(rc *RunCtx, params any) {
 	}
 	inject := func(data []byte, kind string) bool {
 		claims, auth, anyAuth := A.classify(data, cidLen, from == "c")
+		for _, gg := range genuine {
+			// a datagram that begins with a byte-identical genuine record contains an authentic record
+			// whatever the reference model can open (it cannot open CBC records with connection IDs: F10)
+			if len(data) > len(gg) && bytes.HasPrefix(data, gg) {
+				anyAuth = true
+			}
+		}
 		emBefore := toSock.EmitCount()
 		gotBefore := len(rd.Got)
 		errBefore := len(rd.Errs)
